@@ -396,6 +396,10 @@ def execute(history):
                         # the reference fails for a reason that cannot persist by nature (autograd graph state: second
                         # backward through non-detached caches, deepcopy of non-leaf cached tensors inside get_fantasy_model)
                         out.stats["probe:reference_rejected_restored_ok_" + k] += 1
+                    elif statusA == "ok" and statusB == "rejected" and k == "predict" and pure_rejection(recipe, B, op, obsB.get("exc")):
+                        # a freshly constructed model holding B's state rejects this (input, settings) pair as well: the
+                        # reference only answered from caches (e.g. more LOVE probe vectors than grid points); not persistence
+                        out.stats["probe:pure_function_rejection_reference_answered_from_cache"] += 1
                     elif statusA != statusB or obsA.get("exc") != obsB.get("exc"):
                         out.violate(
                             "lockstep_status_differs",
@@ -433,6 +437,18 @@ def execute(history):
         FAULTS.disarm()
         m_c20.reset_globals()
     return out
+
+
+def pure_rejection(recipe, live, op, exc_name):
+    """Does a freshly constructed model with `live`'s visible state reject the same prediction the same way?"""
+    try:
+        F = zoo.fresh_model(recipe, zoo.model_state(live.model, recipe))
+        F.eval()
+        F.likelihood.eval()
+        r = driver.predict(F, driver.test_args(recipe, op), dict(op, grad=False), op.get("lik", False))
+        return r[0] == "exc" and r[1] == exc_name
+    except Exception:  # noqa
+        return False
 
 
 def observe_saved(recipe, rec, src):
